@@ -91,6 +91,7 @@ Qed.
 (* ------------------------------------------------------------------ the parser *)
 Section ParserP.
 Variable reg : list (Z * str * str * str).
+Variable tok : option kind -> name -> list attr -> list token -> bool.
 
 (* ---- exactness of the handlers of the repaired tree ---- *)
 Lemma fwd_child_exact : forall c, exact_on (fwd_child true) c.
@@ -114,27 +115,31 @@ Lemma deleg_elem_exact : forall n cs r,
 Proof. intros. apply run_loop_exact, Forall_all, deleg_child_exact. Qed.
 
 Lemma ext_elem_exact : forall k n a cs r,
-  ext_ok k n a (flatten_all cs) = true ->
-  ext_elem true k n a (flatten_all cs ++ TEnd n :: r) = Some r.
+  tok (Some k) n a (flatten_all cs) = true ->
+  ext_elem true tok k n a (flatten_all cs ++ TEnd n :: r) = Some r.
 Proof.
-  intros k n a cs r H. unfold ext_elem.
-  destruct (name_eqb n delegation_name); [apply deleg_elem_exact|].
-  now rewrite take_subtree_children, H.
+  intros k n a cs r H. unfold ext_elem. rewrite take_subtree_children, H.
+  destruct (name_eqb n delegation_name); [apply deleg_elem_exact | reflexivity].
 Qed.
 
 Lemma child_of_exact : forall sns k c,
-  child_ok reg (TKStanza k) c = true -> exact_on (child_of reg true sns k) c.
+  child_ok reg tok sns (TKStanza k) c = true -> exact_on (child_of reg true tok sns k) c.
 Proof.
   intros sns k [n a cs|s|] H; cbn [exact_on]; auto. intros r. cbn [child_ok] in H.
-  assert (Hst : forall k', (if registered reg k' n then ext_ok k' n a (flatten_all cs) else true) = true ->
-                           stanza_child reg true sns k' n a (flatten_all cs ++ TEnd n :: r) = Some r).
+  assert (Hst : forall k',
+            (if registered reg k' n then tok (Some k') n a (flatten_all cs)
+             else if is_priority sns k' n then int_ok 8 (direct_text 0 (flatten_all cs))
+             else true) = true ->
+            stanza_child reg true tok sns k' n a (flatten_all cs ++ TEnd n :: r) = Some r).
   { intros k' H'. unfold stanza_child. destruct (registered reg k' n).
     - now apply ext_elem_exact.
     - destruct (str_eqb (fst n) sns && known_child k' (snd n)).
-      + destruct (str_eqb (snd n) s_error); [apply err_elem_exact | apply skip_children].
+      + destruct (str_eqb (snd n) s_error); [apply err_elem_exact|].
+        destruct (is_priority sns k' n); [|apply skip_children].
+        now rewrite take_subtree_children, H'.
       + apply skip_children. }
   destruct k; cbn [child_of]; try (now apply Hst).
-  unfold iq_child. destruct (str_eqb (snd n) s_error); [apply err_elem_exact|].
+  unfold iq_child. destruct (str_eqb (snd n) s_error && str_eqb (fst n) sns); [apply err_elem_exact|].
   destruct (registered reg KIQ n); [now apply ext_elem_exact | apply skip_children].
 Qed.
 
@@ -144,10 +149,13 @@ Proof.
   destruct (_ && _); apply skip_children.
 Qed.
 
-Lemma features_child_exact : forall c, exact_on features_child c.
+Lemma features_child_exact : forall sns c,
+  child_ok reg tok sns TKFeatures c = true -> exact_on (features_child tok) c.
 Proof.
-  intros [n a cs|s|]; cbn [exact_on]; auto. intros r. unfold features_child.
-  destruct (name_eqb n starttls_name); [apply tls_elem_exact | apply skip_children].
+  intros sns [n a cs|s|] H; cbn [exact_on]; auto. intros r. cbn [child_ok] in H.
+  unfold features_child.
+  destruct (name_eqb n starttls_name); [apply tls_elem_exact|].
+  now rewrite take_subtree_children, H.
 Qed.
 
 Lemma Forall_forallb : forall (f : node -> bool) (P : node -> Prop) l,
@@ -160,32 +168,33 @@ Qed.
 (* ---- one top-level element ---- *)
 Lemma next_packet_elem : forall n a cs r tk,
   classify n = inl tk -> own_attrs_ok tk a = true ->
-  forallb (child_ok reg tk) cs = true ->
-  next_packet reg true (flatten (NElem n a cs) ++ r) = (pkt_of_top tk a, r).
+  forallb (child_ok reg tok (fst n) tk) cs = true ->
+  next_packet reg true tok (flatten (NElem n a cs) ++ r) = (pkt_of_top tk a, r).
 Proof.
   intros n a cs r tk Hc Hown Hch. rewrite flatten_elem. cbn [app].
   unfold next_packet. cbn [next_token]. rewrite Hc. rewrite <- app_assoc. cbn [app].
   destruct tk as [k| | |p u]; cbn [decode_top pkt_of_top].
   - unfold decode_stanza. rewrite run_loop_exact; [reflexivity|].
     eapply Forall_forallb; [|exact Hch]. apply child_of_exact.
-  - rewrite run_loop_exact; [reflexivity|]. apply Forall_all, features_child_exact.
+  - rewrite run_loop_exact; [reflexivity|].
+    eapply Forall_forallb; [|exact Hch]. apply features_child_exact.
   - rewrite run_loop_exact; [reflexivity|].
     apply Forall_all, failed_child_exact.
   - unfold tagged. rewrite Hown, skip_children. reflexivity.
 Qed.
 
 Lemma next_packet_text : forall rp s ts,
-  next_packet reg rp (TText s :: ts) = next_packet reg rp ts.
+  next_packet reg rp tok (TText s :: ts) = next_packet reg rp tok ts.
 Proof. reflexivity. Qed.
 Lemma next_packet_misc : forall rp ts,
-  next_packet reg rp (TMisc :: ts) = next_packet reg rp ts.
+  next_packet reg rp tok (TMisc :: ts) = next_packet reg rp tok ts.
 Proof. reflexivity. Qed.
 
 Lemma run_skip_text : forall rp f s ts,
-  run_packets_f reg rp f (TText s :: ts) = run_packets_f reg rp f ts.
+  run_packets_f reg rp tok f (TText s :: ts) = run_packets_f reg rp tok f ts.
 Proof. intros rp [|f] s ts; [reflexivity|]. cbn [run_packets_f]. now rewrite next_packet_text. Qed.
 Lemma run_skip_misc : forall rp f ts,
-  run_packets_f reg rp f (TMisc :: ts) = run_packets_f reg rp f ts.
+  run_packets_f reg rp tok f (TMisc :: ts) = run_packets_f reg rp tok f ts.
 Proof. intros rp [|f] ts; [reflexivity|]. cbn [run_packets_f]. now rewrite next_packet_misc. Qed.
 
 Lemma classify_cases : forall n,
@@ -233,9 +242,9 @@ Qed.
 
 (* ---- a prefix of good top-level items yields exactly their packets ---- *)
 Lemma run_prefix : forall items,
-  forallb (top_ok reg) items = true -> forall fuel tail,
-  run_packets_f reg true (n_elems items + fuel) (flatten_all items ++ tail)
-  = pkts_of items ++ run_packets_f reg true fuel tail.
+  forallb (top_ok reg tok) items = true -> forall fuel tail,
+  run_packets_f reg true tok (n_elems items + fuel) (flatten_all items ++ tail)
+  = pkts_of items ++ run_packets_f reg true tok fuel tail.
 Proof.
   induction items as [|x items IH]; intros Hok fuel tail; [reflexivity|].
   cbn [forallb] in Hok. apply andb_true_iff in Hok as [Hx Hrest].
@@ -253,10 +262,10 @@ Proof.
 Qed.
 
 Lemma run_after : forall items tail,
-  forallb (top_ok reg) items = true ->
+  forallb (top_ok reg tok) items = true ->
   exists fuel, length tail < fuel /\
-  run_packets reg true (flatten_all items ++ tail)
-  = pkts_of items ++ run_packets_f reg true fuel tail.
+  run_packets reg true tok (flatten_all items ++ tail)
+  = pkts_of items ++ run_packets_f reg true tok fuel tail.
 Proof.
   intros items tail Hok. unfold run_packets.
   exists (S (length (flatten_all items ++ tail)) - n_elems items).
@@ -268,19 +277,19 @@ Proof.
 Qed.
 
 Lemma run_close : forall fuel, 1 < fuel ->
-  run_packets_f reg true fuel [TEnd stream_name] = [PClose; Err EEof].
+  run_packets_f reg true tok fuel [TEnd stream_name] = [PClose; Err EEof].
 Proof.
   intros [|[|f]] H; try lia. cbn [run_packets_f]. unfold next_packet. cbn [next_token].
   rewrite name_eqb_refl. cbn. reflexivity.
 Qed.
 
-Lemma run_eof : forall fuel, 0 < fuel -> run_packets_f reg true fuel [] = [Err EEof].
+Lemma run_eof : forall fuel, 0 < fuel -> run_packets_f reg true tok fuel [] = [Err EEof].
 Proof. intros [|f] H; [lia|]. reflexivity. Qed.
 
 (* framing, stream closed by the peer *)
 Lemma framing_closed : forall items,
-  forallb (top_ok reg) items = true ->
-  run_packets reg true (flatten_all items ++ [TEnd stream_name])
+  forallb (top_ok reg tok) items = true ->
+  run_packets reg true tok (flatten_all items ++ [TEnd stream_name])
   = pkts_of items ++ [PClose; Err EEof].
 Proof.
   intros items Hok. destruct (run_after items [TEnd stream_name] Hok) as [fuel [Hf ->]].
@@ -289,8 +298,8 @@ Qed.
 
 (* framing, input ends *)
 Lemma framing_eof : forall items,
-  forallb (top_ok reg) items = true ->
-  run_packets reg true (flatten_all items) = pkts_of items ++ [Err EEof].
+  forallb (top_ok reg tok) items = true ->
+  run_packets reg true tok (flatten_all items) = pkts_of items ++ [Err EEof].
 Proof.
   intros items Hok. destruct (run_after items [] Hok) as [fuel [Hf H]].
   rewrite app_nil_r in H. rewrite H. f_equal. apply run_eof. lia.
@@ -299,22 +308,55 @@ Qed.
 (* an element the switch nest does not know ends the run with an error, whatever follows *)
 Lemma next_packet_unknown : forall rp n a cs r e,
   classify n = inr e ->
-  fst (next_packet reg rp (flatten (NElem n a cs) ++ r)) = Err e.
+  fst (next_packet reg rp tok (flatten (NElem n a cs) ++ r)) = Err e.
 Proof.
   intros rp n a cs r e H. rewrite flatten_elem. cbn [app]. unfold next_packet.
   cbn [next_token]. now rewrite H.
 Qed.
 
 Lemma unknown_stops : forall items n a cs rest e,
-  forallb (top_ok reg) items = true -> classify n = inr e ->
-  run_packets reg true (flatten_all items ++ flatten (NElem n a cs) ++ rest)
+  forallb (top_ok reg tok) items = true -> classify n = inr e ->
+  run_packets reg true tok (flatten_all items ++ flatten (NElem n a cs) ++ rest)
   = pkts_of items ++ [Err e].
 Proof.
   intros items n a cs rest e Hok Hc.
   destruct (run_after items (flatten (NElem n a cs) ++ rest) Hok) as [fuel [Hf ->]].
   f_equal. destruct fuel as [|f]; [lia|]. cbn [run_packets_f].
   pose proof (next_packet_unknown true n a cs rest e Hc) as Hn.
-  destruct (next_packet reg true (flatten (NElem n a cs) ++ rest)) as [p r].
+  destruct (next_packet reg true tok (flatten (NElem n a cs) ++ rest)) as [p r].
+  cbn in Hn. subst p. reflexivity.
+Qed.
+
+(* ---- truncation inside an element ---- *)
+Lemma next_packet_truncated : forall rp n a cs pre suf tk,
+  classify n = inl tk -> pre ++ suf = flatten_all cs ++ [TEnd n] -> suf <> [] ->
+  fst (next_packet reg rp tok (TStart n a :: pre)) = Err EDecode.
+Proof.
+  intros rp n a cs pre suf tk Hc H Hs. unfold next_packet. cbn [next_token]. rewrite Hc.
+  pose proof (skip_prefix_none cs n pre suf H Hs) as Hk.
+  destruct tk as [k| | |p u]; cbn [decode_top].
+  - unfold decode_stanza, run_loop, consume. rewrite Hk.
+    destruct (loop _ _ _ _); reflexivity.
+  - unfold run_loop, consume. rewrite Hk. destruct (loop _ _ _ _); reflexivity.
+  - unfold run_loop, consume. rewrite Hk. destruct (loop _ _ _ _); reflexivity.
+  - unfold tagged. destruct (own_attrs_ok _ _); [rewrite Hk|]; reflexivity.
+Qed.
+
+(* the input ends inside a (dispatchable) element: the elements before it yield exactly
+   their packets, the cut element yields no packet but an error *)
+Lemma truncated_stops : forall items n a cs pre suf,
+  forallb (top_ok reg tok) items = true -> dispatchable n = true ->
+  flatten (NElem n a cs) = pre ++ suf -> pre <> [] -> suf <> [] ->
+  run_packets reg true tok (flatten_all items ++ pre) = pkts_of items ++ [Err EDecode].
+Proof.
+  intros items n a cs pre suf Hok Hd H Hp Hs.
+  unfold dispatchable in Hd. destruct (classify n) as [tk|e] eqn:Hc; [|discriminate].
+  rewrite flatten_elem in H. destruct pre as [|t pre']; [contradiction|].
+  cbn [app] in H. injection H as <- H.
+  destruct (run_after items (TStart n a :: pre') Hok) as [fuel [Hf ->]].
+  f_equal. destruct fuel as [|f]; [cbn in Hf; lia|]. cbn [run_packets_f].
+  pose proof (next_packet_truncated true n a cs pre' suf tk Hc (eq_sym H) Hs) as Hn.
+  destruct (next_packet reg true tok (TStart n a :: pre')) as [p r].
   cbn in Hn. subst p. reflexivity.
 Qed.
 
@@ -334,27 +376,31 @@ Proof.
   destruct (name_eqb n forwarded_name); [apply run_loop_len in H | apply skip_len in H]; lia.
 Qed.
 
-Lemma ext_elem_nonincr : forall k, nonincr (ext_elem rp k).
+Lemma ext_elem_nonincr : forall k, nonincr (ext_elem rp tok k).
 Proof.
   intros k n a r r' H. unfold ext_elem, deleg_elem in H.
-  destruct (name_eqb n delegation_name); [apply run_loop_len in H; lia|].
   unfold take_subtree in H. destruct (take_from 0 r) as [[i r0]|] eqn:E; [|discriminate].
-  destruct (ext_ok k n a i); [|discriminate]. injection H as <-.
-  apply take_from_len in E. lia.
+  destruct (tok (Some k) n a i); [|discriminate].
+  destruct (name_eqb n delegation_name); [apply run_loop_len in H; lia|].
+  injection H as <-. apply take_from_len in E. lia.
 Qed.
 
-Lemma child_of_nonincr : forall sns k, nonincr (child_of reg rp sns k).
+Lemma child_of_nonincr : forall sns k, nonincr (child_of reg rp tok sns k).
 Proof.
   intros sns.
-  assert (Hst : forall k, nonincr (stanza_child reg rp sns k)).
+  assert (Hst : forall k, nonincr (stanza_child reg rp tok sns k)).
   { intros k n a r r' H. unfold stanza_child, err_elem in H.
     destruct (registered reg k n); [now apply ext_elem_nonincr in H|].
     destruct (str_eqb (fst n) sns && known_child k (snd n)).
-    - destruct (str_eqb (snd n) s_error); [apply run_loop_len in H | apply skip_len in H]; lia.
+    - destruct (str_eqb (snd n) s_error); [apply run_loop_len in H; lia|].
+      destruct (is_priority sns k n); [|apply skip_len in H; lia].
+      unfold take_subtree in H. destruct (take_from 0 r) as [[i r0]|] eqn:E; [|discriminate].
+      destruct (int_ok 8 (direct_text 0 i)); [|discriminate]. injection H as <-.
+      apply take_from_len in E. lia.
     - destruct rp; [apply skip_len in H; lia | injection H as <-; lia]. }
   intros [| |]; cbn [child_of]; try apply Hst.
   intros n a r r' H. unfold iq_child, err_elem in H.
-  destruct (str_eqb (snd n) s_error); [apply run_loop_len in H; lia|].
+  destruct (str_eqb (snd n) s_error && str_eqb (fst n) sns); [apply run_loop_len in H; lia|].
   destruct (registered reg KIQ n); [now apply ext_elem_nonincr in H | apply skip_len in H; lia].
 Qed.
 
@@ -364,10 +410,13 @@ Proof.
   destruct (_ && _); apply skip_len in H; lia.
 Qed.
 
-Lemma features_child_nonincr : nonincr features_child.
+Lemma features_child_nonincr : nonincr (features_child tok).
 Proof.
   intros n a r r' H. unfold features_child, tls_elem in H.
-  destruct (name_eqb n starttls_name); [apply run_loop_len in H | apply skip_len in H]; lia.
+  destruct (name_eqb n starttls_name); [apply run_loop_len in H; lia|].
+  unfold take_subtree in H. destruct (take_from 0 r) as [[i r0]|] eqn:E; [|discriminate].
+  destruct (tok None n a i); [|discriminate]. injection H as <-.
+  apply take_from_len in E. lia.
 Qed.
 
 Lemma next_token_len : forall ts t r, next_token ts = Some (t, r) -> length r < length ts.
@@ -392,7 +441,7 @@ Qed.
 
 (* every non-error result consumed at least one token *)
 Lemma next_packet_progress : forall ts p r,
-  next_packet reg rp ts = (p, r) -> is_err p = false -> length r < length ts.
+  next_packet reg rp tok ts = (p, r) -> is_err p = false -> length r < length ts.
 Proof.
   intros ts p r H He. unfold next_packet in H.
   destruct (next_token ts) as [[t r0]|] eqn:E.
@@ -418,7 +467,7 @@ Qed.
 Lemma done_not_fuel : forall p r o, p <> Err EFuel -> fst (done p r o) <> Err EFuel.
 Proof. intros p r [x|] H; cbn; [exact H | discriminate]. Qed.
 
-Lemma next_packet_not_fuel : forall ts, fst (next_packet reg rp ts) <> Err EFuel.
+Lemma next_packet_not_fuel : forall ts, fst (next_packet reg rp tok ts) <> Err EFuel.
 Proof.
   intros ts. unfold next_packet.
   destruct (next_token ts) as [[t r0]|]; [|cbn; discriminate].
@@ -436,10 +485,10 @@ Qed.
 
 (* the fuel of run_packets is never exhausted *)
 Lemma run_no_fuel : forall fuel ts, length ts < fuel ->
-  ~ In (Err EFuel) (run_packets_f reg rp fuel ts).
+  ~ In (Err EFuel) (run_packets_f reg rp tok fuel ts).
 Proof.
   induction fuel as [|f IH]; intros ts Hlen; [lia|]. cbn [run_packets_f].
-  destruct (next_packet reg rp ts) as [p r] eqn:E.
+  destruct (next_packet reg rp tok ts) as [p r] eqn:E.
   destruct (is_err p) eqn:Ep.
   - intros [H|[]]. subst p. pose proof (next_packet_not_fuel ts) as Hn.
     rewrite E in Hn. now apply Hn.
@@ -448,16 +497,16 @@ Proof.
     + apply (IH r); [|exact H]. apply next_packet_progress in E; [lia | exact Ep].
 Qed.
 
-Lemma run_packets_no_fuel : forall ts, ~ In (Err EFuel) (run_packets reg rp ts).
+Lemma run_packets_no_fuel : forall ts, ~ In (Err EFuel) (run_packets reg rp tok ts).
 Proof. intros ts. apply run_no_fuel. lia. Qed.
 
 (* the run ends with an error and contains no other *)
 Lemma run_shape : forall fuel ts, length ts < fuel ->
-  exists ps e, run_packets_f reg rp fuel ts = ps ++ [Err e]
+  exists ps e, run_packets_f reg rp tok fuel ts = ps ++ [Err e]
                /\ forallb (fun p => negb (is_err p)) ps = true.
 Proof.
   induction fuel as [|f IH]; intros ts Hlen; [lia|]. cbn [run_packets_f].
-  destruct (next_packet reg rp ts) as [p r] eqn:E.
+  destruct (next_packet reg rp tok ts) as [p r] eqn:E.
   destruct (is_err p) eqn:Ep.
   - destruct p; try discriminate. exists [], e. split; reflexivity.
   - destruct (IH r) as [ps [e [H1 H2]]].
@@ -467,7 +516,7 @@ Qed.
 
 (* the loops' own fuel is never exhausted either *)
 Lemma stanza_loop_no_fuel : forall sns k self ts,
-  loop (S (length ts)) (child_of reg rp sns k) self ts <> LFuel.
+  loop (S (length ts)) (child_of reg rp tok sns k) self ts <> LFuel.
 Proof. intros. apply loop_no_fuel; [apply child_of_nonincr | lia]. Qed.
 
 Lemma inner_loops_no_fuel : forall self ts,
@@ -475,7 +524,7 @@ Lemma inner_loops_no_fuel : forall self ts,
   loop (S (length ts)) (fwd_child rp) self ts <> LFuel /\
   loop (S (length ts)) (deleg_child rp) self ts <> LFuel /\
   loop (S (length ts)) failed_child self ts <> LFuel /\
-  loop (S (length ts)) features_child self ts <> LFuel.
+  loop (S (length ts)) (features_child tok) self ts <> LFuel.
 Proof.
   intros. repeat split; apply loop_no_fuel; try lia.
   - apply skip_h_nonincr.
